@@ -410,7 +410,7 @@ func c15Weaker(p *Prog, g *GuardCtx, fn *ssa.Function, s Sink, goal Goal) (strin
 		var frames ssa.Value
 		Instrs(fn, func(in ssa.Instruction) {
 			if call, ok := in.(*ssa.Call); ok {
-				if c := call.Call.StaticCallee(); c != nil && c.Name() == "Frames" && len(call.Call.Args) == 1 && call.Call.Args[0] == ssa.Value(fn.Params[0]) {
+				if c := call.Call.StaticCallee(); c != nil && c.Name() == "Frames" && len(call.Call.Args) == 1 && resolveCell(call.Call.Args[0]) == ssa.Value(fn.Params[0]) {
 					frames = call
 				}
 			}
@@ -590,8 +590,13 @@ func c15R4(p *Prog, r *Report) {
 				case *ssa.Convert:
 					walk(x)
 				case *ssa.BinOp:
-					if c, ok := x.Y.(*ssa.Const); ok && c.Value != nil && (x.Op == token.NEQ || x.Op == token.EQL) {
-						res = "const " + c.Value.ExactString()
+					if x.Op == token.NEQ || x.Op == token.EQL {
+						// compared with a constant, on either side
+						for _, o := range []ssa.Value{x.Y, x.X} {
+							if c, ok := o.(*ssa.Const); ok && c.Value != nil {
+								res = "const " + c.Value.ExactString()
+							}
+						}
 					}
 				}
 			}
@@ -724,7 +729,7 @@ func c15R5(p *Prog, r *Report) {
 			if mi, ok := v.(*ssa.MakeInterface); ok {
 				v = mi.X
 			}
-			return ArgForParam(d.Path, v) == ssa.Value(dec.Params[0])
+			return resolveCell(ArgForParam(d.Path, v)) == ssa.Value(dec.Params[0])
 		}
 		cc := CallOf(in)
 		if cc == nil || len(cc.Args) == 0 {
